@@ -13,8 +13,14 @@ META = dict(
          "constants. Behaviours (macro steps: n blocks of an exact size class, reorgs, manual prune heights around every file and window boundary, lock heights "
          "around every file boundary plus buffer) are replayed on an in-process regtest node in prune mode with 64 KiB block files; file infos, files on disk, "
          "BLOCK_HAVE_DATA / HAVE_UNDO per file, prune locks and usage are compared after every step, and every prune event observed on the node is judged by "
-         "TLC against the clauses of the property. Thorough tier: automatic pruning with about 600 one-megabyte blocks (target 550 MiB).",
-    note="Not covered: assumeutxo snapshot / background chainstate (prune_start and the halved target are constants 0 / 1 chainstate here). Verdicts are "
+         "TLC against the clauses of the property; blocks are also delivered out of height order (second of a pair before the first), and every file "
+         "info (nHeightFirst..nHeightLast) must cover the blocks stored in its file. The assumeutxo clause has its own specification (PruneSnap: two "
+         "block-file cursors per BlockfileTypeForHeight, snapshot chainstate pruning from base + 1, AddBlock as coded, out-of-order storage; exhaustive on a "
+         "scaled-down model) whose scripted behaviours run on a real pruning node with an activated, unvalidated snapshot of height 110 (base block and "
+         "historical blocks delivered, swapped pairs, manual prunes): no pruned file may hold a block the background chainstate has not validated. "
+         "Thorough tier: automatic pruning with about 600 one-megabyte blocks (target 550 MiB).",
+    note="On the snapshot node the block-file layout is observed, not predicted (INV-mode only), pruning is manual, and the halved automatic target with two "
+         "chainstates is not exercised. Verdicts are "
          "SAFE-mode: a node that prunes less than the specification is a counted deviation, not a violation; violations are pruned files that break a clause "
          "on the observed state, an automatic prune that stops early, and a prune lock left higher than the specification moved it on a reorg. "
          "PruneAfterHeight (100 with -fastprune) is part of 'eligible'. Known finding (both clamps, genuine but confined to files that hold nothing above "
@@ -34,6 +40,11 @@ CLAUSES = {
     "ObsAutoPost": "automatic pruning stopped above the target although an eligible file was left",
     "ObsKeepsRecent": "a file holding only the genesis block was pruned while it was within the last 288 blocks of the tip (clamp max(0, tip - 288))",
     "ObsKeepsLocked": "a file holding nothing above height 1 was pruned at or above a prune lock at height 0 / 1 (clamp max(1, lock - 11))",
+}
+SNAP_CLAUSES = {
+    "ObsSnapFileInfoCovers": "on the snapshot node a block file's info (nHeightFirst..nHeightLast) does not cover a block stored in the file",
+    "ObsSnapKeepsBackground": "a prune on behalf of the snapshot chainstate deleted a file holding a block the background chainstate has not validated yet",
+    "ObsSnapKeepsRecent": "on the snapshot node a pruned file held a block within the last 288 blocks of the tip",
 }
 CORNER_KEYS = {"ObsKeepsRecent": "corner:genesis-only-file-within-288", "ObsKeepsLocked": "corner:height-1-file-above-lock"}
 
@@ -80,7 +91,7 @@ def judge(ctx, res, tests, cfg, name, args):
                    if h and f < len(o["after"]) and o["after"][f]["size"] > 0 and (min(h) < o["after"][f]["hf"] or max(h) > o["after"][f]["hl"])]
             what = "%s: after %s (step %s) tip=%d; (file, nHeightFirst, nHeightLast, lowest stored, highest stored): %s" % (
                 CLAUSES[inv], json.dumps(t.get("action")), t.get("step"), o["tip"], bad[:4])
-            if ctx.violation("fileinfo:" + vflib.digest([t.get("action"), bad[:1]]), what, dict(adapter="prune", mode="replay", args=list(args), case=case, observation=dict(after=o["after"], heights=o["heights"]), clause=inv)):
+            if ctx.violation("fileinfo:" + vflib.digest(bad[:1]), what, dict(adapter="prune", mode="replay", args=list(args), case=case, observation=dict(after=o["after"], heights=o["heights"]), clause=inv)):
                 n_viol += 1
             continue
         spans = [(f, min(o["heights"][f]), max(o["heights"][f])) for f in o["pruned"] if o["heights"][f]]
@@ -91,6 +102,43 @@ def judge(ctx, res, tests, cfg, name, args):
         if ctx.violation(key, what, dict(adapter="prune", mode="replay", args=list(args), case=case, observation=o, clause=inv)):
             n_viol += 1
     return len(lines), verdicts
+
+
+def snapshot_stage(ctx, thorough):
+    """The assumeutxo clause: PruneSnap (two block-file cursors, snapshot chainstate pruning from base + 1, out-of-order storage) model-checked on a
+    scaled-down model; its scripted behaviours replayed on a real pruning node with an activated, unvalidated snapshot; observations judged by TLC."""
+    binary = ctx.build_adapter("prunesnap")
+    ctx.tlc("Prune", "MCPruneSnap", "MC_snap_thorough.cfg" if thorough else "MC_snap_small.cfg", name="snap_model", workers=JOBS, timeout=2400)
+    r = ctx.tlc("Prune", "MCPruneSnap", "E1_snap.cfg", name="snap_scripts", env=TLC_ENV, workers=1, timeout=2400)
+    tests = list(vflib.Graph(vflib.load_emitted(r.emit_path)).path_cover())
+    kinds = collections.Counter(s["a"][0] for t in tests for s in t["steps"])
+    for k in ("mine", "swap", "base", "hist", "prune"):
+        if not kinds[k]:
+            raise vflib.InfraError("vacuity: the snapshot behaviours never exercise " + k)
+    res = ctx.run_harness(binary, "replay", tests, nproc=JOBS, name="snapshot", timeout=2400)
+    vflib.report_mismatches(ctx, binary, "replay", res, adapter="prunesnap", what_prefix="prune (snapshot node): ")
+    obs = [t for t in res["traces"] if "obs" in t]
+    verdicts = vflib.judge(ctx, "Prune", "MCPruneSnapObs", "Obs_snap.cfg", [t["obs"] for t in obs], name="observed_snapshot")
+    seen = set()
+    for idx, inv in verdicts:
+        t = obs[idx]; o = t["obs"]
+        case = tests[t["index"]] if t.get("index") is not None and t["index"] < len(tests) else None
+        bad = [(f, o["after"][f]["hf"], o["after"][f]["hl"], min(h), max(h)) for f, h in enumerate(o["heights"])
+               if h and f < len(o["after"]) and o["after"][f]["size"] > 0 and f not in o["pruned"] and (min(h) < o["after"][f]["hf"] or max(h) > o["after"][f]["hl"])]
+        lost = [(f, min(o["heights"][f]), max(o["heights"][f])) for f in o["pruned"] if o["heights"][f]]
+        key = "snapshot:%s:%s" % (inv, vflib.digest([bad[:1], lost[:1]]))
+        if key in seen:
+            continue
+        seen.add(key)
+        what = "%s: after %s (step %s) snapshot tip=%d background tip=%d base=%d; files pruned (file, lowest, highest height held): %s; file infos not covering (file, nHeightFirst, nHeightLast, lowest, highest): %s" % (
+            SNAP_CLAUSES.get(inv, inv), json.dumps(t.get("action")), t.get("step"), o["tip"], o["bg"], o["base"], lost[:4], bad[:4])
+        ctx.violation(key, what, dict(adapter="prunesnap", mode="replay", args=[], case=case, observation=o, clause=inv))
+    s = res["summary"]
+    if not s.get("prune_events"):
+        raise vflib.InfraError("vacuity: nothing was pruned on the snapshot node")
+    ctx.extra["snapshot_node"] = dict(behaviours=len(tests), steps=int(s.get("steps", 0)), observations=len(obs), prune_events=int(s.get("prune_events", 0)),
+                                      files_pruned=int(s.get("files_pruned", 0)), clauses_violated=dict(collections.Counter(inv for _, inv in verdicts)))
+    return len(tests), int(s.get("steps", 0)) + len(obs)
 
 
 def run_auto_only(ctx, binary):
@@ -152,8 +200,10 @@ def run(ctx):
 
     if not summary.get("prune_events"):
         raise vflib.InfraError("vacuity: the node never pruned a file")
-    ctx.traces = all_tests
-    ctx.evaluations = int(summary.get("steps", 0)) + n_obs
+    # 4. the assumeutxo clause on a node with an activated snapshot
+    n_snap_tests, n_snap_evals = snapshot_stage(ctx, thorough)
+    ctx.traces = all_tests + n_snap_tests
+    ctx.evaluations = int(summary.get("steps", 0)) + n_obs + n_snap_evals
     ctx.nontrivial = set(vflib.digest(t["steps"]) for t in tests if any((s.get("r") or []) and any(e["pruned"] for e in s["r"]) for s in t["steps"]))
     ctx.extra["directed_behaviours"] = n_directed
     ctx.extra["model_steps_per_kind"] = dict(acc)
@@ -165,7 +215,7 @@ def run(ctx):
     ctx.extra["deviation_samples"] = [d.get("why", "")[:300] for d in deviations[:5]]
     for t in tests[:2]:
         ctx.sample([s["a"] for s in t["steps"]])
-    ctx.assumptions += ["no assumeutxo snapshot / background chainstate", "the node stays in initial block download (old block timestamps), as the specification assumes",
+    ctx.assumptions += ["snapshot part: regtest assumeutxo height 110, background validation progresses only by the blocks the behaviour delivers", "the node stays in initial block download (old block timestamps), as the specification assumes",
                         "PruneAfterHeight = 100 (-fastprune chain parameter), block files of 64 KiB (BlockManager::Options::fast_prune)"]
     return ctx.finish(level="model_checking", exhaustive=False,
                       rule="directed behaviours at every boundary of the rules plus TLC-simulated behaviours (seeded); non-trivial = behaviours in which at least "
